@@ -54,6 +54,7 @@ type reader struct {
 	digest       hash.Hash32
 	err          error
 	scratch      [4]byte
+	dictInflater bool // decompressor is the dictionary-capable inflater of the last FDICT stream
 }
 
 // Resetter resets a ReadCloser returned by NewReader or NewReaderDict
@@ -132,7 +133,7 @@ func (z *reader) Close() error {
 }
 
 func (z *reader) Reset(r io.Reader, dict []byte) error {
-	*z = reader{decompressor: z.decompressor}
+	*z = reader{decompressor: z.decompressor, dictInflater: z.dictInflater}
 	if fr, ok := r.(*bufio.Reader); ok {
 		z.r = fr
 	} else {
@@ -171,8 +172,11 @@ func (z *reader) Reset(r io.Reader, dict []byte) error {
 	if haveDict {
 		// only the dictionary-capable inflater honours dict (flate.NewReader's Reset ignores it)
 		z.decompressor = flate.NewReaderDict(z.r, dict)
-	} else if z.decompressor == nil {
+		z.dictInflater = true
+	} else if z.decompressor == nil || z.dictInflater {
+		// without a dictionary a reused Reader decodes exactly like a new one
 		z.decompressor = flate.NewReader(z.r)
+		z.dictInflater = false
 	} else {
 		z.decompressor.(flate.Resetter).Reset(z.r, nil)
 	}
